@@ -728,6 +728,12 @@ class HostConnectionPool(object):
                 conn.set_keyspace_blocking(self._session.keyspace)
             self._next_trash_allowed_at = time.time() + _MIN_TRASH_INTERVAL
             with self._lock:
+                if self.is_shutdown:
+                    # the pool was shut down while we were connecting: shutdown() has
+                    # already closed what was in _connections and will not see this one
+                    self.open_count -= 1
+                    conn.close()
+                    return True
                 new_connections = self._connections[:] + [conn]
                 self._connections = new_connections
             log.debug("Added new connection (%s) to pool for host %s, signaling availability",
